@@ -149,7 +149,35 @@ def gen_potable(rng):
     where = rng.choice({'pair': ['pair'], 'eam': ['pair', 'embed', 'density'], 'fs': ['pair', 'embed', 'density'], 'adp': ['pair', 'embed', 'density', 'dipole', 'quadrupole']}[kind])
     return {'potable_fault': True, 'target': target, 'where': where, 'frac': rng.choice([0.05, 0.3, 0.5, 0.75, 0.95])}
 
+def rewrite_corpus():
+    return [{'rewrite_after_fault': True, 'cls': c, 'nr': 8, 'fault_at': k} for c in ('LAMMPS', 'DL_POLY', 'GULP') for k in (5, 11)]
+
+def check_rewrite(case):
+    """the same tabulation OBJECT written again after a write that failed part-way: the failed write left nothing on the object either -
+    the second write is the whole table (what a newly built object writes), or it fails again; never a shorter table"""
+    from atsim.potentials.pair_tabulation import LAMMPS_PairTabulation, DLPoly_PairTabulation, GULP_PairTabulation
+    cls = {'LAMMPS': LAMMPS_PairTabulation, 'DL_POLY': DLPoly_PairTabulation, 'GULP': GULP_PairTabulation}[case['cls']]
+    c = {'pots': [['Al', 'Al', False], ['Al', 'Cu', True]], 'labels': ['Al', 'Cu']}
+    def build():
+        rec = layout.Recorder(); return rec, cls(p_c01.build_potentials(c, rec), 6.0, case['nr'])
+    rec0, fresh = build(); ref = io.StringIO(); fresh.write(ref)
+    rec, tab = build(); rec.fault_at = case['fault_at']
+    first = io.StringIO()
+    try: tab.write(first); return ['the injected fault at evaluation %d did not propagate' % case['fault_at']]
+    except layout.InjectedFault: pass
+    if first.getvalue(): return ['%d characters written by the failing write' % len(first.getvalue())]
+    rec.fault_at = None
+    second = io.StringIO()
+    try: tab.write(second)
+    except Exception as e: return []
+    shape = lambda t: [len(l.split()) for l in t.split('\n')]        # the recorded values depend on how many evaluations came before: compare the layout
+    if shape(second.getvalue()) != shape(ref.getvalue()):
+        return ['%s tabulation written again after a failed write: %d characters, a newly built object writes %d (%d lines vs %d)'
+                % (case['cls'], len(second.getvalue()), len(ref.getvalue()), second.getvalue().count('\n'), ref.getvalue().count('\n'))]
+    return []
+
 def oracle(case):
+    if case.get('rewrite_after_fault'): return check_rewrite(case)
     if case.get('potable_fault'):
         rc, size, err = potable_fault(case)
         fails = []
@@ -169,7 +197,7 @@ def correspond(ctx):
         f = analyse(c, c['_maxpos'])
         nfaults += 1
         if f: dis.append({'case': c, 'what': '; '.join(f)[:300]})
-    for c in pcases:
+    for c in pcases + rewrite_corpus():
         f = oracle(c)
         if f: dis.append({'case': c, 'what': '; '.join(f)[:300]})
     allc = cases + pcases
@@ -191,6 +219,7 @@ def potable_corpus(full):
 def search_cases(rng, n):
     for c in potable_corpus(True): yield c
     for c in large_corpus(True): yield c
+    for c in rewrite_corpus(): yield c
     for k in range(min(n, 120)):
         c = gen_case(rng); c['_maxpos'] = 12
         yield c
